@@ -40,6 +40,11 @@ package udphop
 
 //@ spec func hopInv(u) = forall(c, selBool(sockOpen, u, c) ==> !u.closed && ((!isnil(u.currentConn) && c == payload(u.currentConn)) || (!isnil(u.prevConn) && c == payload(u.prevConn))))
 //@ objinv udpHopPacketConn: hopInv(this) && (!this.closed ==> !isnil(this.currentConn) && 0 <= this.addrIndex && this.addrIndex < len(this.Addrs))
+// ... and, the other way round, while the connection is open its current socket is open, and
+// so is the previous one (replies to it are still delivered until the next hop), which is a
+// different socket
+//@ objinv udpHopPacketConn: !this.closed ==> selBool(sockOpen, this, payload(this.currentConn))
+//@ objinv udpHopPacketConn: !this.closed && !isnil(this.prevConn) ==> selBool(sockOpen, this, payload(this.prevConn)) && payload(this.prevConn) != payload(this.currentConn)
 
 //@ func (*udpHopPacketConn).hop
 //@   props C19
